@@ -25,7 +25,11 @@ EXPLANATION = ("body VCs of __rshift__/__lshift__/__init__ (sequence, every lett
 
 
 def obligations(ctx):
-    return ctx.verify(FUNCTIONS) + lemmas(ctx)
+    obs = ctx.verify(FUNCTIONS)
+    # `part-start-normalised` is what C08 needs of a rotation (slicing goes by literal coordinates); C13 reads
+    # coordinates modulo the length, so it is not part of this property
+    obs = [o for o in obs if "part-start-normalised" not in o.name]
+    return obs + lemmas(ctx)
 
 
 def lemmas(ctx):
